@@ -2,6 +2,7 @@ package c17
 
 import (
 	"encoding/base64"
+	"fmt"
 	"time"
 )
 
@@ -43,6 +44,8 @@ type input struct {
 	Attrs     map[string]any    `json:"attrs,omitempty"`
 	Outputs   map[string]any    `json:"outputs,omitempty"`
 	Cause     string            `json:"cause,omitempty"`
+	// Life: the upstream answer to this input carries this lifetime in seconds (see servers_test.go)
+	Life int64 `json:"upstream_lifetime_s,omitempty"`
 }
 
 type mechSpec struct {
@@ -137,6 +140,11 @@ func catalogue(s *servers, keyStore string, now time.Time) []*mechSpec {
 	opaque := func(iss, aud, scopes string) map[string]string {
 		return bearer("tok~" + iss + "~" + aud + "~" + scopes)
 	}
+	living := func(iss, aud, scopes string, life int64) map[string]string {
+		return bearer(fmt.Sprintf("tok~%s~%s~%s~life=%d", iss, aud, scopes, life))
+	}
+	// the introspection responses of the first inputs carry no lifetime, those of the last ones a lifetime
+	// shorter respectively longer than the long configured cache ttls (and longer than the short ones)
 	introInputs := func(issA, issB string) []input {
 		return []input{
 			{Name: "ok", Headers: opaque(issA, "aud1", "read")},
@@ -145,6 +153,9 @@ func catalogue(s *servers, keyStore string, now time.Time) []*mechSpec {
 			{Name: "noscope", Headers: opaque(issA, "aud1", "")},
 			{Name: "inactive", Headers: bearer("revoked")},
 			{Name: "none"},
+			{Name: "short-lived", Headers: living(issA, "aud1", "read", lifeShort), Life: lifeShort},
+			{Name: "long-lived", Headers: living(issA, "aud1", "read", lifeLong), Life: lifeLong},
+			{Name: "short-lived-aud2-rw", Headers: living(issA, "aud2", "read+write", lifeShort), Life: lifeShort},
 		}
 	}
 	tokenOverrides := func(otherIss string) []override {
@@ -165,6 +176,13 @@ func catalogue(s *servers, keyStore string, now time.Time) []*mechSpec {
 	kidM1 := "k-" + predict("GET", "/jwks/"+hM1, acc, "")
 	hM2 := predict("GET", "/m2/.well-known/openid-configuration", map[string]string{"Accept": "application/json", "X-Meta": "1"}, "")
 	kidM2 := "k-" + predict("GET", "/jwks/"+hM2, acc, "")
+
+	// jwks endpoint selected by the issuer of the token: keys without certificate, with a certificate expiring sooner
+	// and with one expiring later than the configured cache ttl
+	issPlain, issShortCert, issLongCert := "issuer-plain", fmt.Sprintf("issuer-life=%d", lifeShort), fmt.Sprintf("issuer-life=%d", lifeLong)
+	certToken := func(iss, aud string, scp []string, expired bool) map[string]string {
+		return bearer(s.signJWT("k-"+predict("GET", "/jwks/cert/"+iss, acc, ""), claims(iss, aud, scp, expired)))
+	}
 
 	reqInputs := []input{
 		{Name: "alice-get", Method: "GET", Path: "/x/1", SubjectID: "alice", Attrs: M{"role": "admin"}, Headers: map[string]string{"X-Fwd-1": "f1", "X-Fwd-2": "f2"}, Cookies: map[string]string{"c1": "v1", "c2": "v2"}},
@@ -212,9 +230,11 @@ func catalogue(s *servers, keyStore string, now time.Time) []*mechSpec {
 			"forward_headers":            L{"X-Fwd-1"},
 			"forward_cookies":            L{"c1"},
 			"cache_ttl":                  "7s",
+			"session_lifespan":           M{"not_after": "exp"},
 		},
 			Overrides: []override{
 				{Name: "ttl", Cfg: M{"cache_ttl": "3s"}, Equiv: true},
+				{Name: "ttl-long", Cfg: M{"cache_ttl": "2h"}, Equiv: true},
 				{Name: "ttl0", Cfg: M{"cache_ttl": "0s"}, Equiv: true},
 				{Name: "fallback", Cfg: M{"allow_fallback_on_error": true}, Equiv: true},
 				{Name: "both", Cfg: M{"cache_ttl": "1s", "allow_fallback_on_error": true}, Equiv: true},
@@ -225,6 +245,8 @@ func catalogue(s *servers, keyStore string, now time.Time) []*mechSpec {
 				{Name: "hdr-s2", Headers: map[string]string{"X-Session": "s2"}},
 				{Name: "cookie-s3", Cookies: map[string]string{"session": "s3", "c1": "v3"}},
 				{Name: "none"},
+				{Name: "hdr-s4-short-lived", Headers: map[string]string{"X-Session": fmt.Sprintf("s4~life=%d", lifeShort)}, Life: lifeShort},
+				{Name: "cookie-s5-long-lived", Cookies: map[string]string{"session": fmt.Sprintf("s5~life=%d", lifeLong)}, Life: lifeLong},
 			}},
 		{Kind: kAuthn, ID: "jwt_jwks", Type: "jwt", Label: "jwt+jwks_endpoint", Cfg: M{
 			"jwks_endpoint": M{"url": S + "/jwks/static", "headers": M{"X-Jwks-Client": "heimdall"}},
@@ -249,12 +271,36 @@ func catalogue(s *servers, keyStore string, now time.Time) []*mechSpec {
 		},
 			Overrides: tokenOverrides("mX"),
 			Inputs:    jwtInputs(kidM2, "m2", "mX")},
+		{Kind: kAuthn, ID: "jwt_cert", Type: "jwt", Label: "jwt+jwks_endpoint", Cfg: M{
+			"jwks_endpoint": M{"url": S + "/jwks/cert/{{ .TokenIssuer }}"},
+			"assertions":    M{"issuers": L{issPlain, issShortCert, issLongCert}, "audience": L{"aud1"}},
+			"cache_ttl":     "2h",
+			"validate_jwk":  false,
+		},
+			Overrides: append(tokenOverrides(issShortCert), override{Name: "ttl-longer", Cfg: M{"cache_ttl": "3h"}, Equiv: true}),
+			Inputs: []input{
+				{Name: "ok", Headers: certToken(issPlain, "aud1", []string{"read"}, false)},
+				{Name: "aud2-rw", Headers: certToken(issPlain, "aud2", []string{"read", "write"}, false)},
+				{Name: "expired", Headers: certToken(issPlain, "aud1", []string{"read"}, true)},
+				{Name: "none"},
+				{Name: "short-lived-cert", Headers: certToken(issShortCert, "aud1", []string{"read"}, false), Life: lifeShort},
+				{Name: "long-lived-cert", Headers: certToken(issLongCert, "aud1", []string{"read"}, false), Life: lifeLong},
+				{Name: "short-lived-cert-aud2-rw", Headers: certToken(issShortCert, "aud2", []string{"read", "write"}, false), Life: lifeShort},
+			}},
 		{Kind: kAuthn, ID: "intro_ep", Type: "oauth2_introspection", Label: "oauth2_introspection+introspection_endpoint", Cfg: M{
 			"introspection_endpoint": M{"url": S + "/introspect/static", "headers": M{"X-Intro-Client": "heimdall"}},
 			"assertions":             M{"issuers": L{iss1}, "audience": L{"aud1"}},
 			"cache_ttl":              "8s",
 		},
 			Overrides: tokenOverrides(iss2),
+			Inputs:    introInputs(iss1, iss2)},
+		// configured cache ttl between the lifetimes of the short and of the long living tokens
+		{Kind: kAuthn, ID: "intro_long", Type: "oauth2_introspection", Label: "oauth2_introspection+introspection_endpoint", Cfg: M{
+			"introspection_endpoint": M{"url": S + "/introspect/long"},
+			"assertions":             M{"issuers": L{iss1}, "audience": L{"aud1"}},
+			"cache_ttl":              "2h",
+		},
+			Overrides: append(tokenOverrides(iss2), override{Name: "ttl-longer", Cfg: M{"cache_ttl": "3h"}, Equiv: true}),
 			Inputs:    introInputs(iss1, iss2)},
 		{Kind: kAuthn, ID: "intro_meta", Type: "oauth2_introspection", Label: "oauth2_introspection+metadata_endpoint", Cfg: M{
 			"metadata_endpoint": M{"url": S + "/m3/.well-known/oauth-authorization-server"},
@@ -374,6 +420,20 @@ func catalogue(s *servers, keyStore string, now time.Time) []*mechSpec {
 				{Name: "ttl", Cfg: M{"cache_ttl": "3s"}, Equiv: true},
 				{Name: "header", Cfg: M{"header": M{"name": "X-Other-Auth", "scheme": "Other"}}, Equiv: true},
 				{Name: "all", Cfg: M{"scopes": L{"s4", "s5"}, "cache_ttl": "1s", "header": M{"name": "X-All-Auth", "scheme": "All"}}, Equiv: true},
+				{Name: "empty", Cfg: M{}, Equiv: true, Inert: true},
+			},
+			Inputs: reqInputs[:2]},
+		// the token endpoint answers the scope life=<n> with expires_in: the prototype gets tokens living shorter than its
+		// cache ttl, the variants tokens without lifetime, with the same and with a longer one
+		{Kind: kFin, ID: "occ_long", Type: "oauth2_client_credentials", Label: "oauth2_client_credentials", Cfg: M{
+			"token_url": S + "/token", "client_id": "cid2", "client_secret": "sec2", "scopes": L{"s1", fmt.Sprintf("life=%d", lifeShort)}, "cache_ttl": "2h",
+		},
+			Overrides: []override{
+				{Name: "scopes-no-lifetime", Cfg: M{"scopes": L{"s3"}}, Equiv: true},
+				{Name: "scopes-long-lived", Cfg: M{"scopes": L{"s3", fmt.Sprintf("life=%d", lifeLong)}}, Equiv: true},
+				{Name: "ttl", Cfg: M{"cache_ttl": "3s"}, Equiv: true},
+				{Name: "ttl-longer", Cfg: M{"cache_ttl": "3h", "scopes": L{fmt.Sprintf("life=%d", lifeLong)}}, Equiv: true},
+				{Name: "header", Cfg: M{"header": M{"name": "X-Other-Auth", "scheme": "Other"}}, Equiv: true},
 				{Name: "empty", Cfg: M{}, Equiv: true, Inert: true},
 			},
 			Inputs: reqInputs[:2]},
